@@ -314,6 +314,65 @@ theorem onx_shadowing_hides_the_loss :
             fun n => (n + 1, none)] 0 = (2, some "connection lost") := by
   decide
 
+/-! ## operations built on other operations -/
+
+/-- `composed_loss_propagates`: if some element operation fails (the loss struck during it) after the
+earlier ones succeeded, the composite returns that error — not a result, partial or otherwise — in the
+state that element left; no later element runs. -/
+theorem composed_loss_propagates {σ ε α : Type} (pre post : List (σ → σ × (ε ⊕ α))) (f : σ → σ × (ε ⊕ α))
+    (s s1 s2 : σ) (rs : List α) (e : ε) (hpre : composed pre s = (s1, .inr rs)) (hf : f s1 = (s2, .inl e)) :
+    composed (pre ++ f :: post) s = (s2, .inl e) := by
+  induction pre generalizing s rs with
+  | nil =>
+    simp only [composed] at hpre
+    obtain ⟨h1, _⟩ := Prod.mk.inj hpre
+    subst h1
+    simp [composed, hf]
+  | cons g gs ih =>
+    simp only [List.cons_append, composed] at hpre ⊢
+    rcases hg : g s with ⟨sg, eg | ag⟩
+    · rw [hg] at hpre; simp at hpre
+    · rw [hg] at hpre
+      simp only at hpre ⊢
+      rcases hc : composed gs sg with ⟨sc, ec | rc⟩
+      · rw [hc] at hpre; simp at hpre
+      · rw [hc] at hpre
+        simp only at hpre
+        obtain ⟨h1, _⟩ := Prod.mk.inj hpre
+        subst h1
+        rw [ih sg rc hc]
+
+/-- never a success after a loss, and never a truncated one: a composite that reports success returns
+exactly one result per element -/
+theorem composed_success_is_complete {σ ε α : Type} (ops : List (σ → σ × (ε ⊕ α))) (s s' : σ)
+    (rs : List α) (h : composed ops s = (s', .inr rs)) : rs.length = ops.length := by
+  induction ops generalizing s s' rs with
+  | nil => simp [composed] at h; simp [← h.2]
+  | cons g gs ih =>
+    simp only [composed] at h
+    rcases hg : g s with ⟨sg, eg | ag⟩
+    · rw [hg] at h; simp at h
+    · rw [hg] at h
+      simp only at h
+      rcases hc : composed gs sg with ⟨sc, ec | rc⟩
+      · rw [hc] at h; simp at h
+      · rw [hc] at h
+        simp only at h
+        obtain ⟨_, h2⟩ := Prod.mk.inj h
+        have : rs = ag :: rc := (Sum.inr.inj h2).symm
+        rw [this, List.length_cons, ih sg sc rc hc, List.length_cons]
+
+/-- NEGATIVE WITNESS: handing back the gathered part with the error and letting the wrapper keep it
+turns "second of three config lines lost" into a success with one result -/
+theorem partial_result_hides_the_loss :
+    composedPartial [fun (n : Nat) => (n + 1, (.inr "ok1" : String ⊕ String)),
+                     fun n => (n + 1, .inl "connection lost"), fun n => (n + 1, .inr "ok3")] 0
+      = (2, .inr ["ok1"]) ∧
+    composed [fun (n : Nat) => (n + 1, (.inr "ok1" : String ⊕ String)),
+              fun n => (n + 1, .inl "connection lost"), fun n => (n + 1, .inr "ok3")] 0
+      = (2, .inl "connection lost") := by
+  decide
+
 /-! ## the loss is permanent across failed re-opens -/
 
 /-- OBLIGATION on the regenerated fact: the `readLoopExited.Store(…)` sites of package channel never
